@@ -100,6 +100,11 @@ func evaluate(c *rig.Ctx, cs *Case) verdict {
 	// ---- judge 1 (Go, on the real log): review target
 	for _, o := range outs {
 		for _, h := range o.Hits {
+			if o.Upstream >= 0 && h.Inst != o.Upstream && !boundElsewhere[o.Rid] {
+				boundElsewhere[o.Rid] = true
+				v.fails = append(v.fails, failure{kind: "judge", class: "c12.bound-request-decided-by-other-cluster", impl: o,
+					what: fmt.Sprintf("%s request %d for host %q is bound to cluster instance %d but was reviewed by instance %d", o.Kind, o.Rid, rig.UnHex(o.Host), o.Upstream, h.Inst)})
+			}
 			switch {
 			case h.Inst != o.Own:
 				v.fails = append(v.fails, failure{kind: "judge", class: "c12.review-sent-to-other-cluster", impl: o,
@@ -153,6 +158,27 @@ func evaluate(c *rig.Ctx, cs *Case) verdict {
 		impl = append(impl, obs{o.Kind, own, o.OwnReady, o.Tok, o.Attrs, o.Res, o.Time, o.Reviewed})
 		judged = append(judged, o)
 	}
+	// KG.Props.C12.Pipeline on the real log: a request bound to cluster u (it is proxied to u) that was reviewed, or got an
+	// answer that is not an error, must pass the judge with own := u — i.e. the answer has to be what u's oracle says
+	// now / said within the TTL, whichever cluster's cache or endpoint actually produced it
+	nOwn := len(impl)
+	var pipeline []ImplOut
+	for _, o := range judged {
+		if o.Upstream < 0 {
+			continue
+		}
+		isErr := false
+		switch r := o.Res.(type) {
+		case TokRes:
+			isErr = r.K == "err"
+		case SarRes:
+			isErr = r.E != ""
+		}
+		if !isErr || o.Reviewed {
+			impl = append(impl, obs{o.Kind, o.Upstream, true, o.Tok, o.Attrs, o.Res, o.Time, o.Reviewed})
+			pipeline = append(pipeline, o)
+		}
+	}
 	args := map[string]interface{}{"cfg": cs.Cfg, "tokOracle": cs.TokOracle, "sarOracle": cs.SarOracle, "attrs": cs.Attrs, "ops": cs.Ops, "impl": impl}
 	var m ModelReply
 	if err := c.Model("C12.run", args, &m); err != nil {
@@ -161,7 +187,17 @@ func evaluate(c *rig.Ctx, cs *Case) verdict {
 	}
 	v.model = &m
 	for i, ok := range m.ImplJudge {
-		if ok || i >= len(judged) {
+		if ok {
+			continue
+		}
+		if i >= nOwn {
+			if i-nOwn < len(pipeline) && !boundElsewhere[pipeline[i-nOwn].Rid] {
+				o := pipeline[i-nOwn]
+				boundElsewhere[o.Rid] = true
+				v.fails = append(v.fails, failure{kind: "judge", class: "c12.bound-request-decided-by-other-cluster", impl: o,
+					what: fmt.Sprintf("%s request %d for host %q is bound to cluster instance %d (where it is proxied) but its answer %s (reviewed=%v) is not what that cluster's oracle says / said within the TTL",
+						o.Kind, o.Rid, rig.UnHex(o.Host), o.Upstream, canonRes(o.Res), o.Reviewed)})
+			}
 			continue
 		}
 		o := judged[i]
@@ -419,7 +455,7 @@ func runCase(c *rig.Ctx, cs *Case, bucket string, doShrink bool) {
 	if len(v.fails) == 0 {
 		return
 	}
-	if doShrink && firstClass(v) != "c12.hang" { // (every evaluation of a blocking history costs the watchdog's 30 s)
+	if doShrink && firstClass(v) != "c12.hang" && os.Getenv("C12_NOSHRINK") == "" { // (every evaluation of a blocking history costs the watchdog's 30 s)
 		class := firstClass(v)
 		small := shrink(c, cs, class)
 		sv := evaluate(c, small)
